@@ -75,8 +75,9 @@ def hist_scripts(lines, kt_model, limit, seed):
 
 
 def model_hist(kt, depth, limit, seed, wd, dev="none", emit=True):
-    cfg = write_cfg("MC_Hist_%s_%s.cfg" % (kt, dev), HIST_CFG % {"depth": depth, "kt": kt, "dev": dev, "emit": "TRUE" if emit else "FALSE"})
-    res = run.tlc_model(cfg, "MC_Hist.tla", os.path.join(wd, "mc_hist_" + kt), workers=8, capture_prefixes=("T ",))
+    cfg = write_cfg("MC_Hist_%s_%s_%d.cfg" % (kt, dev, depth), HIST_CFG % {"depth": depth, "kt": kt, "dev": dev, "emit": "TRUE" if emit else "FALSE"})
+    res = run.tlc_model(cfg, "MC_Hist.tla", os.path.join(wd, "mc_hist_%s_%d" % (kt, depth)), workers=8 if depth < 3 else 14,
+                        capture_prefixes=("T ",), timeout=5400)
     stats = {"name": "MC_Hist[%s]" % kt, "states": res["states"], "transitions": res["transitions"], "ok": res["ok"],
              "wall_s": round(res["wall_s"], 1), "constants": {"MaxDepth": depth, "KT": kt, "Dev": dev},
              "tail": "\n".join(res["out"].splitlines()[-25:]) if not res["ok"] else ""}
@@ -137,9 +138,10 @@ def shape_scripts(lines, limit, seed, tagp):
 
 
 def model_gen(scheme, pairs, classes, limit, seed, wd, emit=True):
-    cfg = write_cfg("MC_Gen_%s_%d.cfg" % (scheme, pairs), GEN_CFG % {"pairs": pairs, "scheme": scheme, "classes": ",".join(map(str, classes)),
+    cfg = write_cfg("MC_Gen_%s_%d_%d.cfg" % (scheme, pairs, len(classes)), GEN_CFG % {"pairs": pairs, "scheme": scheme, "classes": ",".join(map(str, classes)),
                                                                  "emit": "TRUE" if emit else "FALSE"})
-    res = run.tlc_model(cfg, "MC_Gen.tla", os.path.join(wd, "mc_gen_%s_%d" % (scheme, pairs)), workers=8, capture_prefixes=("SHAPE ",))
+    res = run.tlc_model(cfg, "MC_Gen.tla", os.path.join(wd, "mc_gen_%s_%d_%d" % (scheme, pairs, len(classes))), workers=8 if emit else 14,
+                        capture_prefixes=("SHAPE ",), timeout=5400)
     stats = {"name": "MC_Gen[%s,%d]" % (scheme, pairs), "states": res["states"], "transitions": res["transitions"], "ok": res["ok"],
              "wall_s": round(res["wall_s"], 1), "constants": {"MaxPairs": pairs, "Scheme": scheme, "Classes": classes},
              "tail": "\n".join(res["out"].splitlines()[-25:]) if not res["ok"] else ""}
@@ -154,10 +156,16 @@ def Q(tier, q, t):
 
 
 MODELS = {
-    "hist_k256": lambda tier, wd, seed=1: model_hist("k256", 2, Q(tier, 1500, 20000), seed, wd),
-    "hist_ed": lambda tier, wd, seed=1: model_hist("ed", 2, Q(tier, 800, 10000), seed, wd),
-    "gen_secp": lambda tier, wd, seed=1: model_gen("secp", Q(tier, 2, 3), ALL_CLASSES, Q(tier, 6000, 60000), seed, wd),
-    "gen_ed": lambda tier, wd, seed=1: model_gen("ed", 3, Q(tier, CORE_CLASSES, ALL_CLASSES), Q(tier, 4000, 60000), seed, wd),
+    # replayed against the implementation (Emit = TRUE): kept at sizes whose output stays manageable
+    "hist_k256": lambda tier, wd, seed=1: model_hist("k256", 2, Q(tier, 1500, 14472), seed, wd),
+    "hist_ed": lambda tier, wd, seed=1: model_hist("ed", 2, Q(tier, 800, 15000), seed, wd),
+    "gen_secp": lambda tier, wd, seed=1: model_gen("secp", 2, ALL_CLASSES, Q(tier, 6000, 49770), seed, wd),
+    "gen_ed": lambda tier, wd, seed=1: model_gen("ed", 3, CORE_CLASSES, Q(tier, 4000, 60000), seed, wd),
+    # thorough only: deeper / wider instances, invariants only (no emission)
+    "hist_k256_deep": lambda tier, wd, seed=1: model_hist("k256", 3, 0, seed, wd, emit=False),
+    "hist_ed_deep": lambda tier, wd, seed=1: model_hist("ed", 3, 0, seed, wd, emit=False),
+    "gen_secp_deep": lambda tier, wd, seed=1: model_gen("secp", 3, ALL_CLASSES, 0, seed, wd, emit=False),
+    "gen_ed_deep": lambda tier, wd, seed=1: model_gen("ed", 3, ALL_CLASSES, 0, seed, wd, emit=False),
 }
 
 
@@ -218,5 +226,4 @@ def model_stream(tier, wd, seed=1):
     return {"stats": stats, "scripts": []}
 
 
-MODELS.update({"nodeid": model_nodeid, "key": model_key, "text": model_text, "typed": model_typed, "stream": model_stream,
-               "hist_k256_deep": lambda tier, wd, seed=1: model_hist("k256", Q(tier, 2, 3), Q(tier, 1500, 30000), seed, wd)})
+MODELS.update({"nodeid": model_nodeid, "key": model_key, "text": model_text, "typed": model_typed, "stream": model_stream})
